@@ -102,8 +102,9 @@ type QueueOp struct {
 
 type RecQueue struct {
 	mu      sync.Mutex
-	Ops     []QueueOp
-	pending []any
+	Ops      []QueueOp
+	pending  []any
+	Requeues int // what NumRequeues answers (how often the item is said to have failed before)
 }
 
 // Push makes the next Get return item.
@@ -152,7 +153,7 @@ func (q *RecQueue) ShuttingDown() bool                      { return false }
 func (q *RecQueue) AddAfter(item any, d time.Duration)      { q.rec("AddAfter", item, d) }
 func (q *RecQueue) AddRateLimited(item any)                 { q.rec("AddRateLimited", item, 0) }
 func (q *RecQueue) Forget(item any)                         { q.rec("Forget", item, 0) }
-func (q *RecQueue) NumRequeues(item any) int                { return 0 }
+func (q *RecQueue) NumRequeues(item any) int                { return q.Requeues }
 
 // ---- no-op event recorder ----
 
